@@ -334,6 +334,126 @@ def gen_fitness_multi(r, k):
                 target=r.choice([0.0, 2.5]), input_class=cls)
 
 
+# ---- seeded stochastic pipelines: every run starts from the generator state seed_gen(pipeline_seed)
+
+PC = "pipeline.photon_collection."
+
+
+def seeded_pipelines():
+    """name -> (pipeline spec, sweepable keys with their value pools).  Every pipeline contains a STOCHASTIC model that has
+    no seed of its own (it draws from numpy's global generator, which `pipeline_seed` seeds): the probe `draws` (the number
+    of draws is itself a swept parameter: runs leave the stream at different positions) or pyxel's own shot_noise."""
+    a2p = dict(func="verif_probes.args_to_pixel", name="a2p", arguments=dict(a=1.0, b=2.0))
+    st = dict(func="verif_probes.stateful", name="st", arguments=dict(inc=1.0))
+    dr = dict(func="verif_probes_c06.draws", name="dr", arguments=dict(n=2, hi=4096))
+    mem = dict(func="verif_probes_c06.memory", name="mem", arguments=dict(key="trap", inc=1.0))
+    wr = dict(func="verif_probes.write", name="wr", arguments=dict(bucket="photon", value=64.0))
+    sn = dict(func="pyxel.models.photon_collection.shot_noise", name="shot_noise", arguments=dict(type="poisson"))
+    p2p = dict(func="verif_probes_c06.photon_to_pixel", name="p2p", arguments={})
+    nvals = [1, 2, 3, 5]
+    return {
+        "draw_st": ({G: [a2p, dr, st]}, {K + "a2p.arguments.a": DYADIC, K + "dr.arguments.n": nvals,
+                                         K + "st.arguments.inc": DYADIC}),
+        "draw_mem": ({G: [dr, mem]}, {K + "mem.arguments.inc": DYADIC, K + "dr.arguments.n": nvals}),
+        "shot": ({"photon_collection": [wr, sn], G: [p2p, st]},
+                 {PC + "wr.arguments.value": [16.0, 64.0, 100.0, 256.0, 1000.0], K + "st.arguments.inc": DYADIC}),
+        "shot_draw": ({"photon_collection": [wr, sn], G: [p2p, dr]},
+                      {PC + "wr.arguments.value": [16.0, 64.0, 100.0, 256.0], K + "dr.arguments.n": nvals}),
+    }
+
+
+def gen_seeded_spec(r, pname):
+    pipe, pools = seeded_pipelines()[pname]
+    spec = dict(det=dict(kind=r.choice(["ccd", "cmos"]), rows=r.choice([1, 2]), cols=r.choice([2, 3])),
+                pipeline=copy.deepcopy(pipe),
+                readout=dict(times=r.choice([[1.0], [1.0, 2.0]]), non_destructive=r.random() < 0.3),
+                memory=r.choice([None, 3.0]), pre_exposure=r.choice([0, 1, 2]), pre_seed=r.randrange(1, 500))
+    if "mem" in pname or r.random() < 0.4:
+        spec["real_memory"] = r.choice([{"trap": 4.0}, {"trap": 0.5}])
+    return spec, pools
+
+
+def gen_observe_seeded(r, k):
+    """An observation with a pipeline_seed and a stochastic model that has no seed of its own: every run - whatever its
+    position, whatever the other runs and their order - must equal the standalone exposure with that pipeline_seed.
+    All three modes, the loop and dask with the synchronous scheduler (threads: open finding of C07).  The calls of one
+    case sweep the same values in the given order, reversed, and thinned (run k of one call is run 0 of another)."""
+    names = sorted(seeded_pipelines())
+    pname = names[k % len(names)]
+    spec, pools = gen_seeded_spec(r, pname)
+    mode = ["product", "sequential", "custom"][(k // len(names)) % 3]
+    dask = (k // (3 * len(names))) % 2 == 1 if k >= 3 * len(names) else r.random() < 0.4
+    keys = sorted(pools)
+    nk = r.choice([1, 2])
+    ks = r.sample(keys, min(nk, len(keys)))
+    if mode == "custom":
+        n = r.choice([3, 4])
+        params = [dict(key=key, values=[r.choice(pools[key]) for _ in range(n)]) for key in ks]
+    else:
+        params = [dict(key=key, values=r.sample(pools[key], r.choice([2, 3]))) for key in ks]
+    seed = r.randrange(0, 100000)
+    base = dict(parameters=params, mode=mode, with_dask=dask, scheduler="synchronous" if dask else None,
+                pipeline_seed=seed, ambient=r.randrange(1, 100000))
+    calls = [base]
+    rev = copy.deepcopy(base)
+    for q in rev["parameters"]:
+        q["values"] = list(reversed(q["values"]))
+    rev["ambient"] = r.randrange(1, 100000)
+    rev["with_dask"] = not dask if r.random() < 0.3 else dask
+    rev["scheduler"] = "synchronous" if rev["with_dask"] else None
+    calls.append(rev)
+    thin = copy.deepcopy(base)
+    if mode == "custom":
+        cut = r.choice([1, 2])
+        for q in thin["parameters"]:
+            q["values"] = q["values"][cut:]
+    else:
+        for q in thin["parameters"]:
+            q["values"] = q["values"][r.choice([1, len(q["values"]) - 1]):]
+    thin["ambient"] = r.randrange(1, 100000)
+    if r.random() < 0.5:
+        thin["pipeline_seed"] = r.randrange(0, 100000)      # another seed on the same caller objects
+    calls.append(thin)
+    return dict(kind="observe", pipe=pname, spec=spec, calls=calls, input_class="seeded_stochastic")
+
+
+def gen_fitness_seeded(r, k):
+    """fitness() of a calibration with a pipeline_seed and a stochastic model: the same candidate gives the same fitness -
+    that of the standalone exposures under that seed - wherever it comes in the sequence; 1-3 processors."""
+    names = ["draw_st", "draw_mem", "shot"]
+    pname = names[k % len(names)]
+    spec, pools = gen_seeded_spec(r, pname)
+    spec["readout"] = dict(times=[1.0], non_destructive=False)
+    keys = [key for key in sorted(pools) if not key.endswith("dr.arguments.n")]
+    ks = r.sample(keys, min(r.choice([1, 2]), len(keys)))
+    inputs = []
+    rest = [key for key in sorted(pools) if key not in ks]
+    if rest and k % 2 == 1:
+        key = rest[0]
+        inputs = [dict(key=key, values=r.sample(pools[key], r.choice([2, 3])))]
+    nv = r.choice([3, 4])
+    vecs = [[r.choice(pools[key]) for key in ks] for _ in range(nv)]
+    vecs.append(list(vecs[0]))
+    vecs += [list(v) for v in reversed(vecs[:2])]
+    return dict(kind="fitness", pipe=pname, spec=spec, variables=[dict(key=key, lo=0, hi=100000) for key in ks],
+                input_arguments=inputs, vectors=vecs, target=r.choice([0.0, 10.0]), pipeline_seed=r.randrange(0, 100000),
+                input_class="seeded_stochastic")
+
+
+def gen_calibration_seeded(r, k):
+    """A real calibration (one island, synchronous scheduler) with a pipeline_seed and a stochastic model."""
+    pname = ["draw_st", "draw_mem"][k % 2]
+    spec, pools = gen_seeded_spec(r, pname)
+    spec["det"]["kind"] = "ccd"
+    spec["readout"] = dict(times=[1.0], non_destructive=False)
+    keys = [key for key in sorted(pools) if not key.endswith("dr.arguments.n")]
+    ks = r.sample(keys, 1)
+    return dict(kind="calibration", pipe=pname, spec=spec, variables=[dict(key=key, lo=0.5, hi=8.0) for key in ks],
+                input_arguments=[], islands=1, generations=1, pop=7, evolutions=r.choice([1, 2]), num_best=0,
+                pygmo_seed=r.randrange(1, 1000), target=r.choice([0.0, 20.0]), scheduler="synchronous",
+                pipeline_seed=r.randrange(0, 100000), max_judged=12, input_class="seeded_stochastic")
+
+
 # ------------------------------------------------------------------------------------------ Coq emission
 
 def emit_obj(n) -> str:
@@ -602,16 +722,19 @@ def correspondence(ctx: Ctx, cases, tag="c"):
                 ctx.count("observation_calls")
                 ctx.dist("call", f"{cfg['mode']}/{('dask-' + (cfg.get('scheduler') or 'synchronous')) if cfg['with_dask'] else 'loop'}"
                                  f"{'/raised' if call['raised'] else ''}"
-                                 f"{'/rejected_value' if cfg.get('reject') else ''}")
+                                 f"{'/rejected_value' if cfg.get('reject') else ''}"
+                                 f"{'/seeded_stochastic' if cfg.get('pipeline_seed') is not None else ''}")
         elif c["kind"] == "calibration":
             ctx.count("evaluations", len(o["evals"]) + len(o["champions"]))
             ctx.count("calibration_candidates_evaluated_by_islands", o.get("n_evals", 0))
             ctx.dist("call", f"calibration/{c['islands']}islands/{o.get('threads', 0) > 1 and 'concurrent' or 'serial'}"
-                             f"{'/raised' if o['raised'] else ''}")
+                             f"{'/raised' if o['raised'] else ''}"
+                             f"{'/seeded_stochastic' if c.get('pipeline_seed') is not None else ''}")
         else:
             ctx.count("evaluations", len(o["evals"]))
             ctx.dist("call", f"fitness/{o.get('processors', 1)}proc" + ("/list_variable" if any(
-                v.get("n") for v in c["variables"]) else ""))
+                v.get("n") for v in c["variables"]) else "")
+                     + ("/seeded_stochastic" if c.get("pipeline_seed") is not None else ""))
             ctx.dist("fitness_raised", sum(1 for e in o["evals"] if e["raised"]))
         ctx.dist("pipeline", c["pipe"])
     return graphs, behs + fails, mism
@@ -628,7 +751,7 @@ def corpus_cases():
     return out
 
 
-def gen_cases(ctx: Ctx, ng, no, nf, salt="cases"):
+def gen_cases(ctx: Ctx, ng, no, nf, salt="cases", ns=None):
     r = ctx.rng(salt)
     cases = corpus_cases() if salt == "cases" else []
     cases += [gen_graph(r, k) for k in range(ng)]
@@ -639,6 +762,12 @@ def gen_cases(ctx: Ctx, ng, no, nf, salt="cases"):
     cases += [gen_fitness(r, k) for k in range(nf)]
     cases += [gen_fitness_multi(r, k) for k in range(max(6, nf // 2))]
     cases += [gen_calibration(r, k) for k in range(max(3, nf // 5))]
+    # seeded stochastic pipelines (own PRNG stream, so that the cases above do not depend on this budget)
+    r2 = ctx.rng(salt + "-seeded")
+    ns = max(12, no // 3) if ns is None else ns
+    cases += [gen_observe_seeded(r2, k) for k in range(ns)]
+    cases += [gen_fitness_seeded(r2, k) for k in range(max(4, ns // 3))]
+    cases += [gen_calibration_seeded(r2, k) for k in range(max(2, ns // 8))]
     return cases
 
 
